@@ -209,6 +209,10 @@ func runC16(c *Ctx) error {
 		}
 		return nil
 	}
+	// the websocket part: error envelopes of real connections
+	for i := 0; i < c.N(60, 1500) && !c.Rep.ShouldStop(); i++ {
+		c16WS(c, i)
+	}
 	n := c.N(600, 30000)
 	for i := 0; i < n && !c.Rep.ShouldStop(); i++ {
 		g := &xGen{r: c.Rng, failProb: []float64{0.03, 0.1, 0.3}[c.Rng.Intn(3)]}
@@ -218,6 +222,69 @@ func runC16(c *Ctx) error {
 		c16One(c, m, root, q, c.Rng.Bool())
 	}
 	return nil
+}
+
+// c16WS: over the websocket protocol only messages of errors marked safe are forwarded; an
+// initially failing subscription is reported once and then closed.
+func c16WS(c *Ctx, i int) {
+	rep := c.Rep
+	r := c.Rng
+	var acts []cnAction
+	for k := 0; k < 3+r.Intn(8); k++ {
+		id := 1 + r.Intn(3)
+		switch r.Intn(7) {
+		case 0, 1:
+			acts = append(acts, cnAction{Op: "fail", Arg: int64(1 + r.Intn(3))})
+		case 2, 3:
+			acts = append(acts, cnAction{Op: "subscribe", ID: id, Query: 4}) // the query with the flaky field
+		case 4:
+			acts = append(acts, cnAction{Op: "mutateFail", ID: id})
+		case 5:
+			acts = append(acts, cnAction{Op: "heal"})
+		case 6:
+			acts = append(acts, cnAction{Op: "change", Arg: int64(r.Intn(100))}, cnAction{Op: "pause", Arg: 200})
+		}
+	}
+	cs := cnCase{Seed: r.U64(), Actions: acts}
+	res := cnRun(cs)
+	if res.Problem != "" {
+		rep.Fail("impl_ne_spec", nil, cs, map[string]interface{}{"what": res.Problem})
+		return
+	}
+	if kind, d := cnLifecycleOracle(res, 200); kind != "" {
+		rep.Fail(kind, nil, cs, d)
+		return
+	}
+	nErr := 0
+	for _, e := range res.Events {
+		if e.Kind != "write" {
+			continue
+		}
+		m := e.Data.(map[string]interface{})
+		if m["type"] == "error" {
+			nErr++
+			msg, _ := m["message"].(string)
+			switch msg {
+			case "Internal server error", "safe-text", "duplicate subscription", "too many subscriptions", "unknown message type":
+			default:
+				rep.Fail("impl_ne_spec", nil, cs, map[string]interface{}{"what": "an error envelope carries text that is not a safe error's message", "message": msg})
+				return
+			}
+		}
+		b, _ := json.Marshal(m)
+		if strings.Contains(string(b), "secret") {
+			rep.Fail("impl_ne_spec", nil, cs, map[string]interface{}{"what": "an envelope leaks the text of an error not marked safe", "envelope": m})
+			return
+		}
+	}
+	for _, g := range c02Split(res.Events) {
+		if len(g.kinds) > 0 && g.kinds[0] == "error" && (len(g.kinds) != 1 || !g.ended) {
+			rep.Fail("impl_ne_spec", nil, cs, map[string]interface{}{"what": "an initially failing subscription must be reported once and then closed", "envelopes": g.kinds, "closed": g.ended, "id": g.id})
+			return
+		}
+	}
+	rep.Count("ws")
+	rep.Eval(fmt.Sprintf("ws-%d", cs.Seed), nErr > 0, map[string]interface{}{"error_envelopes": nErr})
 }
 
 // cleanRoot: nothing to clean at present (kept for symmetry with other generators)
